@@ -130,6 +130,12 @@ public:
                 finish = 0;
                 return *this;
             }
+        } else {
+            if (lower == std::numeric_limits<T>::max()) {  // nothing is greater than the maximum
+                start = 1;
+                finish = 0;
+                return *this;
+            }
         }
         start = std::max(next_value(lower), start);
         return *this;
@@ -144,8 +150,14 @@ public:
                 finish = 0;
                 return *this;
             }
+        } else {
+            if (upper == std::numeric_limits<T>::lowest()) {  // nothing is lower than the minimum
+                start = 1;
+                finish = 0;
+                return *this;
+            }
         }
-        finish = std::min(finish, upper);
+        finish = std::min(finish, prev_value(upper));
         return *this;
     }
 
